@@ -989,6 +989,19 @@ def work_grader(tier, seed, _):
             o.fail('empty input', o.key(repr(s)), 'empty input %r: evaluator gave %r, documented: nan' % (s, out[1:]))
     for s, want in (('0||3', 0.0), ('3||0', 0.0), ('2||0||5', 0.0), ('0||0', 0.0), ('1+0||4', 1.0), ('-0||2', 0.0), ('(1-1)||4', 0.0), ('2^0||1', 0.5), ('0*3||0+7', 7.0)):
         o.value_case('parallel with a zero operand', o.key(s), s, {}, want)
+    # parallel chains are n-ary: 1/(1/a + 1/b + ...) -- a prefix whose reciprocals cancel (2 || -2 || 5) does not make the chain undefined
+    import itertools as _it
+    pool = [2.0, -2.0, 5.0, 1.0, -1.0, 4.0, -4.0, 0.5]
+    for n in (3, 4):
+        combos = list(_it.product(pool, repeat=n))
+        if n == 4:
+            combos = combos[::7] if tier == 'quick' else combos
+        for vals in combos:
+            tot = sum(1.0 / v for v in vals)
+            if abs(tot) < 1e-12:
+                continue          # the whole chain cancels: division by zero, not judged here
+            s_ = '||'.join(('(%r)' % v) if v < 0 else repr(v) for v in vals)
+            o.value_case('parallel chains (n-ary, cancelling prefixes)', o.key(s_), s_, {}, 1.0 / tot)
     # NumericalGrader on constant expressions
     C = 'NumericalGrader verdicts'
     count = 60 if tier == 'quick' else 600
